@@ -1,5 +1,6 @@
 import LlgVerif.Model.Svob
 import LlgVerif.Model.Ffi
+import LlgVerif.Model.Trie
 import Driver.Util
 open LlgVerif Drv
 
@@ -10,6 +11,99 @@ def natsOf (l : List Word) : List Nat := l.map (·.toNat)
     state in `St`). -/
 structure St where
   vobs : List (Nat × Svob) := []
+  nodes : Array FlatNode := #[]
+  vocab : Nat := 0
+
+/-- DFA over byte classes: `cls[b]` in `0..k`, `trans[q*k + c]` = successor, `≥ n` = dead. -/
+structure Dfa where
+  k : Nat
+  n : Nat
+  cls : Array Nat
+  trans : Array Nat
+
+def Dfa.toRec (d : Dfa) : Rec Nat where
+  step := fun q b =>
+    let c := d.cls[b.toNat]!
+    let q' := d.trans[q * d.k + c]!
+    if q' < d.n then some q' else none
+
+def parseDfa? (k n cls trans : String) : Option Dfa := do
+  let k ← parseNat? k
+  let n ← parseNat? n
+  let cls ← parseNatList? cls
+  let trans ← parseNatList? trans
+  if cls.length = 256 ∧ trans.length = n * k then some { k, n, cls := cls.toArray, trans := trans.toArray } else none
+
+def showFlat (ns : Array FlatNode) : String :=
+  ";".intercalate (ns.toList.map (fun n =>
+    s!"{n.byte.toNat}:{match n.tok with | some t => toString t | none => "n"}:{n.numParents}:{n.subtreeSize}"))
+
+def showVob (v : Svob) : String := s!"{v.size} {showNatList (natsOf v.data)}"
+
+def getReg (st : St) (r : Nat) : Svob := ((st.vobs.find? (·.1 = r)).map (·.2)).getD Svob.new
+def setReg (st : St) (r : Nat) (v : Svob) : St :=
+  { st with vobs := (r, v) :: st.vobs.filter (·.1 ≠ r) }
+
+def optReg (st : St) (r : Nat) (o : Option Svob) : St × String :=
+  match o with
+  | some v => (setReg st r v, s!"ok {showVob v}")
+  | none => (st, "err")
+
+def handleSvob (st : St) (args : List String) : St × String :=
+  match args.mapM parseNat? with
+  | none => (st, "bad-op")
+  | some a =>
+    match a with
+    -- opcode :: args
+    | [0, r, size] => optReg st r (some (Svob.alloc size))
+    | [1, r, size] => optReg st r (some (Svob.allocOnes size))
+    | [2, r, size, cap] => optReg st r (Svob.allocWithCapacity? size cap)
+    | [3, r, i, v] => optReg st r ((getReg st r).set? i (v = 1))
+    | [4, r, i] => (st, match (getReg st r).get? i with | some b => s!"ok {showBool b}" | none => "err")
+    | [5, r, s, e] => optReg st r ((getReg st r).allowRange? s e)
+    | [6, r, r2] => optReg st r (some (getReg st r2).negated)
+    | [7, r, v] => optReg st r (some ((getReg st r).setAll (v = 1)))
+    | [8, r, size] => optReg st r ((getReg st r).resize? size)
+    | [9, r, r2] => optReg st r ((getReg st r).or? (getReg st r2))
+    | [10, r, r2] => optReg st r ((getReg st r).and? (getReg st r2))
+    | [11, r, r2] => optReg st r ((getReg st r).sub? (getReg st r2))
+    | [12, r, r2, r3] => optReg st r ((getReg st r).orMinus? (getReg st r2) (getReg st r3))
+    | [13, r, r2] => optReg st r ((getReg st r).setFrom? (getReg st r2))
+    | [14, r] => (st, s!"ok {showBool (getReg st r).isZero}")
+    | [15, r, r2] => (st, match (getReg st r).andIsZero? (getReg st r2) with | some b => s!"ok {showBool b}" | none => "err")
+    | [16, r] => optReg st r (some (getReg st r).trimTrailingZeros)
+    | [17, r] => (st, s!"ok {(getReg st r).numSet}")
+    | [18, r] => (st, match (getReg st r).toList? with | some l => s!"ok {showNatList l}" | none => "err")
+    | [19, r] => (st, s!"ok {showNatList (getReg st r).iterAll}")
+    | [20, r] => (st, s!"ok {showOptNat (getReg st r).firstBitSet}")
+    | [21, r, r2] => (st, match (getReg st r).firstBitSetHereAndIn? (getReg st r2) with | some o => s!"ok {showOptNat o}" | none => "err")
+    | [22, r] => (st, s!"ok {(getReg st r).toBinString}")
+    | [23, r, r2] => optReg st r (some (getReg st r2))
+    | _ => (st, "bad-op")
+
+def handleTrie (st : St) (args : List String) : St × String :=
+  match args with
+  | ["build", ws] =>
+    match parseHexList? ws with
+    | some words =>
+      let nodes := flatten (buildTree words)
+      ({ st with nodes := nodes, vocab := words.length }, s!"ok {showFlat nodes}")
+    | none => (st, "bad-op")
+  | ["bias", k, n, cls, trans, q0, start] =>
+    match parseDfa? k n cls trans, parseNat? q0, parseHex? start with
+    | some d, some q0, some start =>
+      (st, s!"ok {showNatList (canonSet (addBias d.toRec st.nodes st.vocab q0 start))}")
+    | _, _, _ => (st, "bad-op")
+  | ["hasext", k, n, cls, trans, q0, start] =>
+    match parseDfa? k n cls trans, parseNat? q0, parseHex? start with
+    | some d, some q0, some start =>
+      (st, s!"ok {showBool (hasValidExtensions d.toRec st.nodes q0 start)}")
+    | _, _, _ => (st, "bad-op")
+  | ["greedy", bs] =>
+    match parseHex? bs with
+    | some bs => (st, s!"ok {showNatList (greedyTokenize st.nodes (bs.length + 1) bs)}")
+    | none => (st, "bad-op")
+  | _ => (st, "bad-op")
 
 def handleParcopy (args : List String) : String :=
   match args with
@@ -37,6 +131,9 @@ def step (st : St) (line : String) : St × String :=
   match words line with
   | "parcopy" :: args => (st, handleParcopy args)
   | "maskinto" :: args => (st, handleInto args)
+  | "trie" :: args => handleTrie st args
+  | "svob" :: args => handleSvob st args
+  | ["reset"] => ({}, "ok")
   | _ => (st, "bad-op")
 
 partial def loop (h : IO.FS.Stream) (out : IO.FS.Stream) (st : St) : IO Unit := do
